@@ -42,6 +42,11 @@ pub fn gen(prop: &str, scen: &str, _k: u64, seed: u64, tier: &str) -> Case {
             case.rbufs = random_rbufs(&mut r_ops);
             case.set("only", -1);
             case.set("multi", r_ops.below(2) as i64);
+            if case.fmt == "xz" && case.knob("multi") != 0 && r_in.pct(40) {
+                case.set("streams", r_in.range(2, 3) as i64);
+                case.set("pad_seed", (r_in.next_u64() >> 1) as i64);
+                case.opt.unit = None;
+            }
         }
         "corrupt.random" => {
             let len = biased_len(&mut r_in, if big { 600_000 } else { 40_000 }, &[4096, 8192, 65536]);
@@ -53,6 +58,15 @@ pub fn gen(prop: &str, scen: &str, _k: u64, seed: u64, tier: &str) -> Case {
             case.set("fault_seed", (r_f.next_u64() >> 1) as i64);
             case.set("multi", r_ops.below(2) as i64);
             case.set("torn", r_f.pct(8) as i64);
+            if case.fmt == "xz" && case.knob("multi") != 0 && r_in.pct(40) {
+                case.set("streams", r_in.range(2, 4) as i64);
+                case.set("pad_seed", (r_in.next_u64() >> 1) as i64);
+                // cut a few bytes into one of the later streams in a third of these runs
+                if r_f.pct(35) {
+                    case.set("cut_into_stream", r_f.range(1, 3) as i64);
+                    case.set("cut_bytes", r_f.range(1, 40) as i64);
+                }
+            }
         }
         "corrupt.field" => {
             let len = biased_len(&mut r_in, 20_000, &[4096, 8192]);
@@ -93,8 +107,11 @@ pub fn exec(case: &Case, keep_log: bool) -> RunResult {
 
 /// The valid file, provided it round-trips on its own (otherwise C02 reports it).
 fn valid_file(case: &Case, data: &[u8], ctx: &mut Ctx) -> Option<Vec<u8>> {
-    let stream = match prepare_stream(case, data) {
-        Ok(s) => s,
+    let stream = match prepare_file(case, data) {
+        Ok((s, spans)) => {
+            ctx.metric("streams_in_file", spans.len() as u64);
+            s
+        }
         Err(_) => {
             ctx.metric("skipped_writer_failed", 1);
             return None;
@@ -200,6 +217,18 @@ fn random(case: &Case, data: &[u8], ctx: &mut Ctx) -> Option<Violation> {
     let mut damaged = file.clone();
     let faults: Vec<StFault> = if !case.storage.is_empty() { case.storage.clone() } else { (0..case.knob_or("nfaults", 1)).map(|_| storage::random_fault(&mut rng, file.len())).collect() };
     let mut applied = storage::apply(&mut damaged, &faults);
+    if case.knob("cut_into_stream") > 0 && case.storage.is_empty() {
+        // lost tail: the file ends a few bytes into the header of a later stream
+        if let Ok((f2, spans)) = prepare_file(case, data) {
+            let i = (case.knob("cut_into_stream") as usize).min(spans.len() - 1);
+            if i >= 1 && f2 == file {
+                damaged = file.clone();
+                damaged.truncate((spans[i].0 + case.knob("cut_bytes") as usize).min(file.len() - 1));
+                applied = 1;
+                ctx.fire("cut_into_later_stream", 1);
+            }
+        }
+    }
     if case.knob("torn") != 0 {
         // torn write: prefix of this file followed by the tail of another valid file
         let mut other = case.clone();
